@@ -193,6 +193,8 @@ def run(spec):
             z2 = env2.const(0)
             res.append(decide(name + "#twin", [(VF2.get(k, z2), Va3.get(k, z2) + VL3.get(k, z2)) for k in keys], sample, twin=True))
         return res
+    if op == "action_mfs":
+        return run_action_mfs(spec, W, cm)
     # bilinear-form operators
     a = bilinear_forms(W)[spec["form"]]
     args = a.arguments()
@@ -261,9 +263,56 @@ def run(spec):
     return res
 
 
+MFS_FORMS = ("only_part1", "parts02", "full", "part2_linear_rest")
+
+
+def run_action_mfs(spec, W, cm):
+    """action(a, coefficients) on MixedFunctionSpace forms: the trial function of part p is replaced by
+    coefficients[p], whatever subset of parts occurs in the form."""
+    from ufl import MixedFunctionSpace, TestFunctions, TrialFunctions
+
+    from vlib import elements as el_
+
+    name = spec["name"]
+    dom = W["dom"]
+    cell = dom.ufl_cell()
+    subs = [ufl.FunctionSpace(dom, el_.P(cell, 1)), ufl.FunctionSpace(dom, el_.P(cell, 2)), ufl.FunctionSpace(dom, el_.P(cell, 3))]
+    MS = MixedFunctionSpace(*subs)
+    vs, us = TestFunctions(MS), TrialFunctions(MS)
+    f = W["f"]
+    a = {"only_part1": us[1] * conj(vs[0]) * dx + f * us[1] * conj(vs[2]) * dx,
+         "parts02": us[0] * conj(vs[1]) * dx + 2 * us[2] * conj(vs[2]) * dx + us[2] * conj(vs[0]) * ds,
+         "full": sum((k + 1 + 3 * l) * us[l] * conj(vs[k]) * dx for k in range(3) for l in range(3)),
+         "part2_linear_rest": us[2] * conj(vs[1]) * dx + f * conj(vs[0]) * dx}[spec["form"]]
+    coefs = [ufl.Coefficient(S_, count=930 + k) for k, S_ in enumerate(subs)]
+    sample = f"action_mfs: {str(a)[:200]} with one explicit coefficient per sub-space"
+    r0 = repr(a)
+    try:
+        out = action(a, coefs)
+    except Exception as ex:  # noqa: BLE001
+        return outcome(name, "rejected", detail=f"action raised {type(ex).__name__}: {str(ex)[:120]}", sample=sample)
+    if repr(a) != r0:
+        return outcome(name, "violated", detail="input form mutated", sample=sample, witness={"structural": "mutated"})
+    e2 = Env(complex_mode=cm)
+    plain = Denoter(Env(complex_mode=cm))
+    for p_, u in enumerate(us):
+        e2.arg_override[u] = (lambda img: lambda comp, derivs, side: plain.pure_derivative(img, comp, tuple(derivs), (), side))(coefs[p_])
+    try:
+        want = forms.form_value(Denoter(e2), a)
+        got = forms.form_value(Denoter(Env(complex_mode=cm)), out)
+    except DenotationError as ex:
+        return outcome(name, "inconclusive", detail=f"denotation: {ex}", sample=sample)
+    keys = sorted(set(want) | set(got))
+    z = Env(complex_mode=cm).const(0)
+    return [decide(name, forms.pairs_for(keys, want, got, z), sample)]
+
+
 def specs(tier):
     S = []
     W = world()
+    for fk in MFS_FORMS:
+        for cm in (False, True):
+            S.append(dict(name=f"action_mfs/{fk}/{'complex' if cm else 'real'}", op="action_mfs", form=fk, complex=cm))
     for fk in the_forms(W):
         if fk != "three_parts":  # has an argument-free part: not of the class 'affine in the trial function'
             S.append(dict(name=f"lhs_rhs/{fk}", op="lhs_rhs", form=fk, twin=(fk in ("mass_load", "poisson"))))
